@@ -37,6 +37,7 @@ class AudioEnv:
         self.state = STOPPED
         self.fresh = False
         self.pos = 0
+        self.atf_done = False
         self.queue = []
         self.calls = []  # state-changing calls, in order
         self.protocol_violations = 0
@@ -63,6 +64,7 @@ class AudioEnv:
         self.uri = uri
         self.pos = 0
         self.fresh = True
+        self.atf_done = False
         return Fut(None)
 
     def _set_state(self, new):
